@@ -40,7 +40,8 @@ def no_three_collinear(pts):
 @st.composite
 def conic_case(draw, tier="quick"):
     what = draw(st.sampled_from(["from_points", "from_crossratio", "from_tangent", "from_foci"]))
-    return {"what": what, "pts": [[draw(C.ints(6)), draw(C.ints(6))] for _ in range(5)], "line": draw(C.ivec(3, 6)), "s": [draw(C.scale()) for _ in range(5)]}
+    return {"what": what, "pts": [[draw(C.ints(6)), draw(C.ints(6))] for _ in range(5)], "line": draw(C.ivec(3, 6)), "s": [draw(C.scale()) for _ in range(5)],
+            "diag": draw(st.sampled_from([0, 0, 1, 2, 3]))}
 
 
 def run_conic(c):
@@ -79,6 +80,26 @@ def run_conic(c):
         l = [Fraction(x) for x in c["line"]]
         if not no_three_collinear(four):
             raise Skip("three collinear points")
+        if c.get("diag"):
+            # tangent through a diagonal point of the quadrangle (and the fifth point): one solution degenerates
+            hq = [[Fraction(x) for x in p] + [Fraction(1)] for p in four]
+            crs = lambda u, w: [u[1] * w[2] - u[2] * w[1], u[2] * w[0] - u[0] * w[2], u[0] * w[1] - u[1] * w[0]]  # noqa: E731
+            i, j, k, m = {1: (0, 2, 1, 3), 2: (0, 1, 2, 3), 3: (0, 3, 1, 2)}[c["diag"]]
+            dp = crs(crs(hq[i], hq[j]), crs(hq[k], hq[m]))
+            l = crs(dp, [Fraction(x) for x in pts[4]] + [Fraction(1)])
+            if not any(l):
+                raise Skip("degenerate tangent")
+            den = 1
+            for x in l:
+                den = den * x.denominator // math.gcd(den, x.denominator)
+            l = [x * den for x in l]
+            g = 0
+            for x in l:
+                g = math.gcd(g, int(x))
+            l = [Fraction(int(x) // g) for x in l]
+            if max(abs(x) for x in l) > 200:
+                raise Skip("magnitude")
+            c = dict(c, line=[int(x) for x in l])
         if any(l[0] * p[0] + l[1] * p[1] + l[2] == 0 for p in four):
             raise Skip("point on the tangent")
         # general position for the construction: the three pairs of opposite sides of the quadrangle meet the tangent in
@@ -87,8 +108,12 @@ def run_conic(c):
         cross = lambda u, w: [u[1] * w[2] - u[2] * w[1], u[2] * w[0] - u[0] * w[2], u[0] * w[1] - u[1] * w[0]]  # noqa: E731
         sides = [cross(hp[i], hp[j]) for i, j in ((0, 2), (1, 3), (0, 1), (2, 3), (0, 3), (1, 2))]
         hits = [cross(sd, l) for sd in sides]
-        if any(X.rank([hits[i], hits[j]]) < 2 for i in range(6) for j in range(i)):
-            raise Skip("sides of the quadrangle meet the tangent in coincident points")
+        # the tangent may pass through one diagonal point of the quadrangle (two opposite sides meet it in the same point):
+        # then one of the two solutions is the line pair through that point and the other one is a proper conic, which is the
+        # one to return; through two diagonal points no proper solution is left
+        diagonal = sum(X.rank([hits[i], hits[j]]) < 2 for i, j in ((0, 1), (2, 3), (4, 5)))
+        if diagonal > 1 or any(X.rank([hits[i], hits[j]]) < 2 for i in range(6) for j in range(i) if (j, i) not in ((0, 1), (2, 3), (4, 5))):
+            raise Skip("no proper conic: the tangent passes through two diagonal points")
         Ps = [P(p) for p in four]
         lv = np.array(c["line"], float)
         L = Line(lv * sc[0])
@@ -96,6 +121,8 @@ def run_conic(c):
         if f:
             return [f]
         A = con.array / np.max(np.abs(con.array))
+        if diagonal:
+            ck.check(abs(np.linalg.det(A)) > 1e-10, "from_tangent:tangent-through-diagonal-point:proper-conic", float(abs(np.linalg.det(A))))
         for i, p in enumerate(four):
             x = np.array(p + [1], dtype=complex)
             ck.check(abs(x @ A @ x) < 1e-7 * max(1, np.max(np.abs(x)) ** 2), "from_tangent:contains-point", (i, complex(x @ A @ x)))
